@@ -313,7 +313,7 @@ class Scen(CompScenario):
 class Prop(PropBase):
     ID = "C29"
     tiers = {
-        "quick": {"runs": 900, "selftest_runs": 4},
+        "quick": {"runs": 2700, "selftest_runs": 4},
         "thorough": {"runs": 30000, "selftest_runs": 32},
     }
     rule = ("one run = one adapter (StreamSource / StreamSink / StreamModuleWrapper+stub) x payload shape, driven for "
